@@ -48,7 +48,7 @@ Latitude (what the property text leaves open; everything else is compared exactl
   * adjacent blocks may be merged or kept (optimize_blocks=False in the chunk lift): position lists, never block lists,
     are compared.
 
-Finding on the unchanged tree (classify() -> F14-lift-child-with-two-leading-empty-blocks, patch proposed in
+Finding on the unchanged tree (classify() -> F-C04-lift-child-with-two-leading-empty-blocks, patch proposed in
 proposed_fixes/C04-lift-leading-empty-blocks.diff): a child location that has bases but whose first two blocks are
 zero-length is refused with EmptyLocationException by Parent.lift_child_location_to_parent (the pairwise fold of the
 lifted blocks collapses empty + empty to EmptyLocation, which cannot be unioned); the same location with the empty
@@ -698,7 +698,7 @@ def run_case(case, ctx):
 
 
 def classify(v):
-    """F14 (proposed fix C04-lift-leading-empty-blocks.diff): Parent.lift_child_location_to_parent lifts the child's
+    """F-C04 (proposed fix C04-lift-leading-empty-blocks.diff): Parent.lift_child_location_to_parent lifts the child's
     blocks one by one and folds them with union_preserve_overlaps; when the first two blocks (in the order of
     Location.blocks) are both zero-length their union collapses to EmptyLocation, whose union with the next block raises
     EmptyLocationException - although the child has bases.  Recognised from the witness alone: the lift raised
@@ -714,5 +714,5 @@ def classify(v):
         return None
     bs = sorted((tuple(b) for b in x), key=(lambda b: (b[0], b[1])) if xs == "+" else (lambda b: (b[0], -b[1])))
     if bs[0][0] == bs[0][1] and bs[1][0] == bs[1][1]:
-        return "F14-lift-child-with-two-leading-empty-blocks"
+        return "F-C04-lift-child-with-two-leading-empty-blocks"
     return None
